@@ -400,9 +400,10 @@ def run_function(w, b, params, no_inline=None, accessor_model=None, max_steps=12
     return out
 
 
-def context(mode=None, suppressed=None):
+def context(mode=None, suppressed=None, after_hash=None):
+    """an abstract Context {mode, break_suppressed, after_hash} (fields the tree does not have are never projected)"""
     md = Agg('typstyle_core::pretty::context::Mode', mode, []) if mode else TOP
-    return Agg('typstyle_core::pretty::context::Context', None, [md, TOP if suppressed is None else Const(suppressed)])
+    return Agg('typstyle_core::pretty::context::Context', None, [md, TOP if suppressed is None else Const(suppressed), TOP if after_hash is None else Const(after_hash)])
 
 
 def evaluate_sequence(w, b, param, parent_kind, seq, no_inline=None, max_paths=4000, ctx=None, extra=None, hooks=None, with_wholes=False, edge_hint=None, peel=None, respect_kinds=False, from_start=False):
